@@ -14,8 +14,19 @@ def run(ctx):
     rng = ctx.rng
     scen = []
     with quiet_stderr():
-        for i in range(ctx.pick(2, 6)):
-            cc, ops = fs_drv.make_job(rng, ctx.seed * 1301 + i, nfiles=(2, 3))
+        njobs = ctx.pick(3, 8)
+        import random
+
+        jobs = []
+        for i in range(njobs):
+            jr = random.Random(ctx.seed * 7919 + i)
+            if i == njobs - 1:
+                cc, ops = fs_drv.make_big_job(jr, ctx.seed * 1301 + i)      # failures inside H5Dwrite
+            else:
+                # every second job: many calls alternating between the two write entry points, in the mode in which they differ
+                cc, ops = fs_drv.make_job(jr, ctx.seed * 1301 + i, nfiles=(2, 3), many_calls=i % 2 == 1,
+                                          mode="gapped" if i % 2 == 1 else None)
+            jobs.append(dict(config=cc.describe(), calls=ops))
             base = fs_drv.faulted(env, drf, cc, ops, "nofault%d" % i, -1, 0, False)
             scen.append(base)
             n = base["nops"]
@@ -25,11 +36,12 @@ def run(ctx):
                 must = [(k, errno.ENOSPC, False) for k in range(1, n + 1)]
                 rest = [x for x in sched if x not in must]
                 rng.shuffle(rest)
-                sched = must[:: 2 if i else 1] + rest[:25]
+                sched = must[:: 2 if (i and i % 2 == 0) else 1] + rest[:25]
             for k, e, st in sched:
                 scen.append(fs_drv.faulted(env, drf, cc, ops, "job%d-op%d-%s-%s" % (i, k, errno.errorcode[e], "sticky" if st else "once"), k, e, st))
     fc.account(ctx, scen, "every single-fault schedule of a recording: operation number k (open/create, write, truncate, close, rename, "
                "mkdir, unlink) fails with ENOSPC or EIO, once or persistently for that kind of operation from then on; logged: every "
                "operation with its real or injected result, the API call results, exit status, final snapshot (raw h5py), fresh reader")
+    ctx.extra["jobs"] = jobs
     ctx.extra["fault_schedules"] = sum(1 for s in scen if s.get("fault") and s["fault"]["at"] > 0)
     ctx.validate("DrfFsTrace", "DrfFsTrace.cfg", scen, label="fault schedule", relevant=fc.relevance(PREFIXES))
